@@ -2,7 +2,7 @@
 PROP = {
     "lean_modules": ["ConduitModel.Props.C16", "ConduitModel.Facts.C16"],
     "jobs": [
-        {"harness": "h_ctl", "comp": "live", "n_quick": 2500, "n_thorough": 60000, "timeout": 3000,
+        {"harness": "h_ctl", "comp": "live", "n_quick": 2500, "n_thorough": 20000, "timeout": 3000,
          "why": "ApplyPlanLive of generated config changes (live-eligible and not) against running / stopped pipelines with scripted "
                 "StopAndWait / Start / ReconfigureProcessor outcomes, stale hashes, missing authorisation and failing store operations, on the "
                 "REAL provisioning.Service: result class, lifecycle/commit event order, Export and state dumps differ from the model, or the C16 "
